@@ -42,6 +42,10 @@ theorem properPrefix_iff (a b : Path) : properPrefix a b = true ↔ ∃ x r, b =
   · rintro ⟨x, r, rfl⟩
     exact ⟨⟨x :: r, rfl⟩, by simp⟩
 
+theorem proper_isPrefix' {k p : Path} (h : properPrefix k p = true) : isPrefix k p = true := by
+  obtain ⟨x, r, rfl⟩ := (properPrefix_iff _ _).mp h
+  exact isPrefix_append_self _ _
+
 /-- `k` lies on the path from `rel` down to `p` (both ends included) -/
 def Between (rel k p : Path) : Prop := isPrefix rel k = true ∧ isPrefix k p = true
 
@@ -378,6 +382,177 @@ theorem flattenList_unique (rel : Path) : (cs : List (String × Node)) → wfLis
     · exact absurd he.symm (hcross _ h2 _ h1)
     · exact flattenList_unique rel rest hwr e1 h1 e2 h2 he
 end
+
+
+/-! ### ancestors of an entry are directory entries -/
+mutual
+theorem flattenNode_ancestor (rel : Path) : (n : Node) → ∀ e ∈ flattenNode rel n, ∀ k, isPrefix rel k = true → properPrefix k e.1 = true →
+    (k, Kind.dir) ∈ flattenNode rel n
+  | .file _, e, he, k, h1, h2 => by
+    simp only [flattenNode, List.mem_singleton] at he; subst he
+    have := isPrefix_antisymm h1 (proper_isPrefix' h2)
+    subst this
+    obtain ⟨x, r, hr⟩ := (properPrefix_iff _ _).mp h2
+    have : rel.length = (rel ++ x :: r).length := by rw [← hr]
+    simp at this
+  | .symlink, e, he, k, h1, h2 => by
+    simp only [flattenNode, List.mem_singleton] at he; subst he
+    have := isPrefix_antisymm h1 (proper_isPrefix' h2)
+    subst this
+    obtain ⟨x, r, hr⟩ := (properPrefix_iff _ _).mp h2
+    have : rel.length = (rel ++ x :: r).length := by rw [← hr]
+    simp at this
+  | .dir cs, e, he, k, h1, h2 => by
+    simp only [flattenNode, List.mem_cons] at he ⊢
+    rcases he with rfl | he
+    · -- e is the directory itself: k would be a proper prefix of rel and an extension of it
+      have := isPrefix_antisymm h1 (proper_isPrefix' h2)
+      subst this
+      obtain ⟨x, r, hr⟩ := (properPrefix_iff _ _).mp h2
+      have : rel.length = (rel ++ x :: r).length := by rw [← hr]
+      simp at this
+    · by_cases hk : k = rel
+      · left; rw [hk]
+      · right
+        have hpp : properPrefix rel k = true := by
+          obtain ⟨r, rfl⟩ := (isPrefix_iff _ _).mp h1
+          cases r with
+          | nil => simp at hk
+          | cons x r => exact (properPrefix_iff _ _).mpr ⟨x, r, rfl⟩
+        exact flattenList_ancestor rel cs e he k hpp h2
+theorem flattenList_ancestor (rel : Path) : (cs : List (String × Node)) → ∀ e ∈ flattenList rel cs, ∀ k, properPrefix rel k = true →
+    properPrefix k e.1 = true → (k, Kind.dir) ∈ flattenList rel cs
+  | [], e, he, _, _, _ => by simp [flattenList] at he
+  | (nm, c) :: rest, e, he, k, h1, h2 => by
+    simp only [flattenList, List.mem_append] at he ⊢
+    rcases he with he | he
+    · left
+      have hpe := flattenNode_prefix (rel ++ [nm]) c e he
+      exact flattenNode_ancestor (rel ++ [nm]) c e he k (below_child hpe h1 (proper_isPrefix' h2)) h2
+    · right
+      exact flattenList_ancestor rel rest e he k h1 h2
+end
+
+
+/-! ### order of the rmdir queue: nothing that comes later lies below something that comes earlier -/
+def NotAbove (a b : Path) : Prop := properPrefix a b = false
+
+theorem notAbove_of_longer {rel a : Path} {nm : String} (h : isPrefix (rel ++ [nm]) a = true) : NotAbove a rel := by
+  unfold NotAbove
+  cases hp : properPrefix a rel with
+  | false => rfl
+  | true =>
+    have := longer_not_prefix h
+    rw [proper_isPrefix' hp] at this; cases this
+
+mutual
+theorem foldersQ_pairwise_node (keep : List Path) (isRoot : Bool) (rel : Path) : (n : Node) → wfNode n →
+    (scanNode keep isRoot rel n).foldersQ.Pairwise NotAbove
+  | .file sz, _ => by
+    by_cases hk : rel ∈ keep <;> simp [scanNode, hk, Scan.empty]
+  | .symlink, _ => by simp [scanNode, Scan.empty]
+  | .dir cs, hwf => by
+    have hwf' : wfList cs := by simpa [wfNode] using hwf
+    by_cases hk : rel ∈ keep
+    · simp [scanNode, hk, Scan.empty]
+    · have hl := foldersQ_pairwise_list keep rel cs hwf'
+      have hbelow : ∀ a ∈ (scanList keep rel cs).foldersQ, NotAbove a rel := by
+        intro a ha
+        have hm := ((foldersQ_list keep rel cs hwf' a).mp ha).1
+        obtain ⟨nm, _, hp⟩ := flattenList_prefix rel cs _ hm
+        exact notAbove_of_longer hp
+      simp only [scanNode, List.contains_iff_mem, hk, if_false]
+      split
+      · simp only
+        rw [List.pairwise_append]
+        exact ⟨hl, List.pairwise_singleton _ _, fun a ha b hb => by
+          simp only [List.mem_singleton] at hb; subst hb; exact hbelow a ha⟩
+      · exact hl
+theorem foldersQ_pairwise_list (keep : List Path) (rel : Path) : (cs : List (String × Node)) → wfList cs →
+    (scanList keep rel cs).foldersQ.Pairwise NotAbove
+  | [], _ => by simp [scanList, Scan.empty]
+  | (nm, c) :: rest, hwf => by
+    obtain ⟨hnm, hwc, hwr⟩ : nm ∉ rest.map Prod.fst ∧ wfNode c ∧ wfList rest := by simpa [wfList] using hwf
+    simp only [scanList, merge_foldersQ]
+    rw [List.pairwise_append]
+    refine ⟨foldersQ_pairwise_node keep false (rel ++ [nm]) c hwc, foldersQ_pairwise_list keep rel rest hwr, ?_⟩
+    intro a ha b hb
+    have hma := ((foldersQ_node keep false (rel ++ [nm]) c hwc a).mp ha).1
+    have hmb := ((foldersQ_list keep rel rest hwr b).mp hb).1
+    have hpa := flattenNode_prefix _ c _ hma
+    obtain ⟨n2, hn2, hpb⟩ := flattenList_prefix rel rest _ hmb
+    unfold NotAbove
+    cases hp : properPrefix a b with
+    | false => rfl
+    | true =>
+      have : nm = n2 := child_name_unique (isPrefix_trans hpa (proper_isPrefix' hp)) hpb
+      subst this; exact absurd hn2 hnm
+end
+
+/-! ### executing the rmdir queue -/
+def rmdirStep (cur : List (Path × Kind)) (d : Path) : Option (List (Path × Kind)) :=
+  if cur.any (fun e => properPrefix d e.1) then none else some (cur.filter (fun e => e.1 ≠ d))
+
+/-- if every entry below a queued directory is itself queued, and no queued directory comes before one that lies below it,
+    the queue runs through and removes exactly the queued paths -/
+theorem rmdir_go (fs1 : List (Path × Kind)) (q done : List Path)
+    (hpw : (done ++ q).Pairwise NotAbove)
+    (hclosed : ∀ d ∈ done ++ q, ∀ e ∈ fs1, properPrefix d e.1 = true → e.1 ∈ done ++ q) :
+    q.foldlM rmdirStep (fs1.filter (fun e => !(done.contains e.1))) = some (fs1.filter (fun e => !((done ++ q).contains e.1))) := by
+  induction q generalizing done with
+  | nil => simp
+  | cons d q ih =>
+    have hnone : (fs1.filter (fun e => !(done.contains e.1))).any (fun e => properPrefix d e.1) = false := by
+      rw [List.any_eq_false]
+      intro e he hpp
+      simp only [List.mem_filter, Bool.not_eq_true'] at he
+      have hnd : e.1 ∉ done := by
+        intro hm
+        have : done.contains e.1 = true := List.contains_iff_mem.mpr hm
+        rw [he.2] at this; cases this
+      have hin := hclosed d (by simp) e he.1 hpp
+      rcases List.mem_append.mp hin with h | h
+      · exact hnd h
+      · rcases List.mem_cons.mp h with h | h
+        · -- e.1 = d: d is no proper prefix of itself
+          obtain ⟨x, r, hr⟩ := (properPrefix_iff _ _).mp hpp
+          have : d.length = (d ++ x :: r).length := by rw [← hr, h]
+          simp at this
+        · -- e.1 comes later in the queue although it lies below d
+          have hp2 : (d :: q).Pairwise NotAbove := (List.pairwise_append.mp hpw).2.1
+          have := (List.pairwise_cons.mp hp2).1 e.1 h
+          unfold NotAbove at this
+          rw [this] at hpp; cases hpp
+    simp only [List.foldlM_cons, rmdirStep, hnone, Bool.false_eq_true, if_false, bind, Option.bind]
+    have hcur : (fs1.filter (fun e => !(done.contains e.1))).filter (fun e => e.1 ≠ d) =
+        fs1.filter (fun e => !((done ++ [d]).contains e.1)) := by
+      rw [List.filter_filter]
+      apply List.filter_congr
+      intro e _
+      simp only [ne_eq, decide_not, List.contains_append, List.contains_cons, List.contains_nil, Bool.or_false, Bool.not_or]
+      by_cases hed : e.1 = d
+      · simp [hed]
+      · have : (e.1 == d) = false := by simpa using hed
+        simp [hed, this]
+    have := ih (done ++ [d]) (by simpa [List.append_assoc] using hpw) (by simpa [List.append_assoc] using hclosed)
+    simp only [List.append_assoc, List.singleton_append] at this
+    rw [← this]
+    congr 1
+
+theorem prefix_comparable : ∀ (a b p : Path), isPrefix a p = true → isPrefix b p = true →
+    isPrefix a b = true ∨ properPrefix b a = true
+  | [], _, _, _, _ => Or.inl rfl
+  | x :: xs, [], _, _, _ => Or.inr ((properPrefix_iff _ _).mpr ⟨x, xs, rfl⟩)
+  | x :: xs, y :: ys, [], ha, _ => by simp [isPrefix] at ha
+  | x :: xs, y :: ys, z :: zs, ha, hb => by
+    simp only [isPrefix, Bool.and_eq_true, beq_iff_eq] at ha hb
+    obtain ⟨rfl, ha⟩ := ha
+    obtain ⟨rfl, hb⟩ := hb
+    rcases prefix_comparable xs ys zs ha hb with h | h
+    · left; simp [isPrefix, h]
+    · right
+      obtain ⟨w, t, ht⟩ := (properPrefix_iff _ _).mp h
+      exact (properPrefix_iff _ _).mpr ⟨w, t, by rw [ht]; rfl⟩
 
 end Clean
 end AptMirror
